@@ -136,6 +136,19 @@ Example C13_nonvacuous_intersect :
             accepted I ops = [false; true; true; true; false; false].
 Proof. cbn zeta. repeat split; try reflexivity. eexists. repeat split; reflexivity. Qed.
 
+(* relative [1,3) s without t0, make_absolute(10 s), on a sequence that starts at 10 s *)
+Example C13_nonvacuous_make_absolute :
+  let r := init (mkargs (AFloat (Fin 8)) (AFloat (Fin 24)) (Some false) None) in
+  let ops := [Msg (Timed 80); Msg (Timed 88); Msg Untimed; Msg (Timed 104)] in
+  fresh r /\ nondecr None ops = true /\ (forall f, first_timed ops = Some f -> Some 80 = Some f) /\
+  exists r', make_absolute r (Some 80) = Ok r' /\ start r' = Some (Fin 88) /\ stop r' = Some (Fin 104) /\
+             accepted r' ops = [false; true; true; false] /\ make_absolute r' (Some 3) = Ok r'.
+Proof.
+  cbn zeta. repeat split; try reflexivity.
+  - cbn. intros f H. injection H as <-. reflexivity.
+  - eexists. repeat split; reflexivity.
+Qed.
+
 Example C13_nonvacuous_raises :
   intersect (init (mkargs (AFloat (Fin 8)) ANone (Some true) None)) (init (mkargs (AFloat (Fin 8)) ANone (Some false) None)) = ValueError.
 Proof. reflexivity. Qed.
